@@ -4,6 +4,8 @@ import ast
 from ..model import AnalysisError
 from ..lib import (FV, Alias, alias_term, decode_new, decode_call, phi_members, is_sym, is_const, is_str,
                    tuple_consts)
+from ..lib import (reached_iff, reached_implies, implies_reached, reached_iff_any, path_term, cond_equiv, cond_implies,  # noqa: F401
+                   else_stmts, branch_stmts, context_literals)
 from ..cfg import walk_stmts, walk_expr
 
 FIELD = "field.Field"
@@ -31,15 +33,23 @@ def returned_news(fvw, cls=FIELD, via=None):
 
 
 def field_branch_stmt(fvw, pname):
-    """first statement of the `if isinstance(<pname>, self.__class__)` branch"""
+    """(if statement, first statement of the branch taken when `isinstance(<pname>, self.__class__)` holds) - the branch
+    is the body of `if isinstance(...)` or what follows a guard `if not isinstance(...): <leave>`"""
+    from ..lib import else_stmts
     for st in fvw.stmts():
         if isinstance(st, ast.If):
             t = st.test
+            neg = False
+            if isinstance(t, ast.UnaryOp) and isinstance(t.op, ast.Not):
+                t = t.operand
+                neg = True
             if isinstance(t, ast.Call) and isinstance(t.func, ast.Name) and t.func.id == "isinstance" \
                     and len(t.args) == 2 and isinstance(t.args[0], ast.Name) and t.args[0].id == pname:
                 a1 = ast.unparse(t.args[1])
                 if a1 in ("self.__class__", "Field", "df.Field", "type(self)"):
-                    return st, st.body[0]
+                    branch = else_stmts(fvw, st) if neg else st.body
+                    if branch:
+                        return st, branch[0]
     raise AnalysisError(f"{fvw.f.qual}: no `isinstance({pname}, self.__class__)` branch found")
 
 
